@@ -282,6 +282,10 @@ func c08Exec(c *Sexp) Outcome {
 						fail = fmt.Sprintf("TimeDuration value %v, time.ParseDuration(%q) = %v, %v", val, lex, v, err)
 					}
 				case "string":
+					// the documented syntax: a double-quoted literal never contains a raw line break (D11)
+					if strings.HasPrefix(lex, "\"") && strings.ContainsAny(lex, "\r\n") {
+						fail = fmt.Sprintf("String accepted the double-quoted literal %q which contains a raw line break", lex)
+					}
 					// where Go's own Unquote accepts the literal and no escape denotes a byte >= 0x80, the values must agree
 					if u, err := strconv.Unquote(lex); err == nil && !strings.Contains(lex, `\x`) && !regexp.MustCompile(`\\[0-7]`).MatchString(lex) && utf8.ValidString(lex) {
 						if u != val.(string) {
